@@ -2,6 +2,7 @@ package main
 
 import (
 	"fmt"
+	"io"
 	"math/big"
 
 	"github.com/tuneinsight/lattigo/v6/core/rlwe"
@@ -55,16 +56,19 @@ func rlkLeaf(c *engine.Chooser, name string, k cfg) {
 	P := mp.NewParties(params, k.n)
 	sig := "C14/rlk"
 
-	protos := make([]multiparty.RelinearizationKeyGenProtocol, k.n)
+	inst, hist := axes(c)
+	alt := altEvkp(params, k, hist)
+	protos := mp.Instances(inst, k.n, func() multiparty.RelinearizationKeyGenProtocol { return multiparty.NewRelinearizationKeyGenProtocol(params) },
+		func(p multiparty.RelinearizationKeyGenProtocol) multiparty.RelinearizationKeyGenProtocol { return p.ShallowCopy() })
 	crps := make([]multiparty.RelinearizationKeyGenCRP, k.n)
 	eph := make([]*rlwe.SecretKey, k.n)
 	r1 := make([]multiparty.RelinearizationKeyGenShare, k.n)
 	r2 := make([]multiparty.RelinearizationKeyGenShare, k.n)
 	for i := range protos {
-		if i == 0 {
-			protos[i] = multiparty.NewRelinearizationKeyGenProtocol(params)
-		} else {
-			protos[i] = protos[0].ShallowCopy()
+		if hist > 0 { // the instance already ran both rounds for another shape with another key
+			e0, a1, a2 := protos[i].AllocateShare(alt)
+			protos[i].GenShareRoundOne(P.SK[(i+1)%k.n], protos[i].SampleCRP(mp.CRS(1-k.crs), alt), e0, &a1)
+			protos[i].GenShareRoundTwo(e0, P.SK[(i+1)%k.n], a1, &a2)
 		}
 		crps[i] = protos[i].SampleCRP(mp.CRS(k.crs), evkp)
 		eph[i], r1[i], r2[i] = protos[i].AllocateShare(evkp)
@@ -101,6 +105,9 @@ func rlkLeaf(c *engine.Chooser, name string, k cfg) {
 				err = hopGadget(a.MarshalBinary, r.UnmarshalBinary)
 				return
 			},
+			Stream: func(a multiparty.RelinearizationKeyGenShare, wrap func(io.Reader) io.Reader) (multiparty.RelinearizationKeyGenShare, error) {
+				return mp.StreamHop[multiparty.RelinearizationKeyGenShare](a, wrap)
+			},
 			Flat: flat(tag),
 		}
 	}
@@ -127,7 +134,7 @@ func rlkLeaf(c *engine.Chooser, name string, k cfg) {
 	// Key noise of the protocol: rlk0 + rlk1*s = P*w*s^2 + s*e0 + u*e1 + e2 with s, u sums of N ternary
 	// polynomials and e0, e1, e2 sums of N errors: sup <= 2*N_ring*N*(N*B) + N*B.
 	uni.Seed(c, name, "use")
-	n, Nr, B := int64(k.n), int64(params.N()), mp.XeSup(params.Xe()).Int64()
+	n, Nr, B := int64(k.n), mp.RingFactor(params), mp.XeSup(params.Xe()).Int64()
 	E := big.NewInt(2*Nr*n*n*B + n*B)
 	S := big.NewInt(n)
 	use := func(key *rlwe.RelinearizationKey, lvl int) (noise *big.Int, err error) {
